@@ -18,7 +18,8 @@ class LruSpace(object):
             self.schemes = [b"s:http|", b"s:https|"] + ([b"s:ftp|"] if r.random() < 0.3 else []) + \
                            ([b"S:HTTP|"] if r.random() < 0.15 else [])
             self.ports = [b"t:80|", b"t:8080|"]
-            hosts = [b"h:com|", b"h:org|", b"h:a|", b"h:b|", b"h:www|", b"h:mm|", b"h:m|"]
+            hosts = [b"h:com|", b"h:org|", b"h:a|", b"h:b|", b"h:www|", b"h:mm|", b"h:m|"] + \
+                    ([r.choice([b"h:WWW|", b"h:Www|", b"h:wwW|"])] if r.random() < 0.25 else [])
             r.shuffle(hosts)
             self.hosts = hosts[: r.randint(3, 6)]
             self.special = [b"h:localhost|", b"h:1.2.3.4|", b"h:[::1]|", b"h:LocalHost|"]
@@ -26,9 +27,12 @@ class LruSpace(object):
                      b"p:" + b"L" * r.choice([71, 72, 73, 74, 146, 147, 200]) + b"|", b"p:\xc3\xa9|", b"p:{|", b"p:}|"]
             r.shuffle(paths)
             self.paths = paths[: r.randint(3, 7)]
-            if r.random() < 0.35:       # two long siblings that agree on everything the head block holds
+            if r.random() < 0.5:        # long siblings that agree on everything the head block holds (any order of arrival)
                 head = b"p:" + b"L" * 72
-                self.paths += [head + r.choice([b"-zz|", b"zz|", b"LLz|"]), head + r.choice([b"-mm|", b"a|", b"LL|", b"|"])]
+                sib = [head + r.choice([b"-zz|", b"zz|", b"LLz|"]), head + r.choice([b"-mm|", b"a|", b"LL|", b"|"]), head + r.choice([b"0|", b"Lm|", b"z|"])]
+                r.shuffle(sib)
+                self.paths += sib[: r.choice([2, 3])]
+            self.deep = r.random() < 0.12  # now and then pages many stems below their site
             self.tails = [b"q:a=1|", b"f:top|", b"q:s:http|"]
         else:
             n = r.randint(3, 7)
@@ -41,7 +45,7 @@ class LruSpace(object):
                 alphabet = r.sample(G2_BYTES, r.randint(1, 3))
                 body = bytes(r.choice(alphabet) for _ in range(L - 1))
                 self.stems.append(body + b"|")
-                if L > 76 and r.random() < 0.5:     # a sibling that differs only beyond the head block
+                if L > 76 and r.random() < 0.7:     # a sibling that differs only beyond the head block
                     self.stems.append(body[:74] + bytes(r.choice(alphabet) for _ in range(r.choice([0, 1, 3, 80]))) + b"|")
             if r.random() < 0.3:
                 self.stems.append(b"|")
@@ -57,7 +61,7 @@ class LruSpace(object):
             else:
                 for _ in range(r.choice([1, 2, 2, 2, 3, 3, 4])):
                     out += r.choice(self.hosts)
-            for _ in range(r.choice([0, 0, 1, 1, 2, 3, 4])):
+            for _ in range(r.choice([0, 0, 1, 1, 2, 3, 4]) + (r.choice([0, 5, 7, 9]) if getattr(self, "deep", False) else 0)):
                 out += r.choice(self.paths)
             if r.random() < 0.15:
                 out += r.choice(self.tails)
@@ -163,6 +167,9 @@ class Session(object):
         # now and then an index constructed with another `encoding=`: text arguments are then encoded with it (the model sees bytes)
         enc = self.r.choice(["latin-1", "cp1252"]) if self.r.random() < 0.12 else None
         a = self.do("init %s%s %s %s %s" % (self.backend, ":" + enc if enc else "", d, self.rules_s, self.cfg))
+        if self.r.random() < self.p.get("poke_ids", 0.08):
+            # an index that has already issued many ids: the counter just below a power of 256
+            self.do("pokeid %d" % self.r.choice([250, 254, 255, 65530, 65534, 65535, 16777213, 16777215, 70000]))
         if self.r.random() < self.p.get("big_ids", 0.04):
             # webentity ids beyond CPython's small-integer cache (> 256): create and delete one webentity over and over
             p = self.space.lru()
@@ -184,7 +191,10 @@ class Session(object):
         return brack(["%s=%s" % (hx(a), inv.get(rx.pattern, "never")) for a, rx in rs.items()])
 
     def w_addpage(self):
-        l = self.page_lru(); self.note(l); self.pages.append(l)
+        l = self.page_lru()
+        if self.pages and self.r.random() < 0.12:
+            l = self.variation_of(self.r.choice(self.pages))       # the scheme / www twin of a page already there
+        self.note(l); self.pages.append(l)
         return self.do("addpage %s %s" % (hx(l), "1" if self.r.random() < 0.4 else "0"))
 
     def w_addpages(self):
@@ -264,6 +274,28 @@ class Session(object):
             self.w_create()
         return a
 
+    def w_chain(self):
+        """many sibling stems under one parent, arriving in sorted order (a degenerate sibling tree, as a sorted crawl
+        produces), some of them webentity prefixes; then look-ups at the far end"""
+        r = self.r
+        base = r.choice(self.known) if self.known and r.random() < 0.5 else self.new_lru()
+        n = r.choice([70, 90, 130])
+        idx = list(range(n))
+        if r.random() < 0.5:
+            idx.reverse()
+        fmt = r.choice([b"p:%04d|", b"p:c%03d|"])
+        lrus = [base + (fmt % k) for k in idx]
+        for i in range(0, n, 25):
+            chunk = lrus[i:i + 25]
+            self.do("addpages %s %s" % (brack([hx(l) for l in chunk]), "0"))
+        self.note(lrus[0], lrus[-1], lrus[n // 2]); self.pages += [lrus[0], lrus[-1], lrus[n // 2]]
+        for l in (lrus[-1], lrus[-2], lrus[n // 2]):
+            self.do("create " + brack([hx(l)]))
+        for l in (lrus[-1], lrus[-2], lrus[0]):
+            self.q("retrievewe " + hx(l + b"p:x|")); self.q("webyprefix " + hx(l)); self.q("lrunode " + hx(l))
+        self.q("prefixiter")
+        return self.q("counts")
+
     def w_create(self):
         ps = [self.any_lru() for _ in range(self.r.choice([1, 1, 2, 3]))]
         if self.r.random() < 0.15 and ps:
@@ -281,7 +313,8 @@ class Session(object):
               "network 1 0 %s" % self.r.choice("01"), "network %s 1 1" % self.r.choice("01"),
               "paginatelinks %d %s %s %s %s -" % (w2, a2, sw[1], sw[2], self.r.choice(["1", "2", "-"])),
               "mostlinked %d %s %s %s" % (w2, a2, self.r.choice(["2", "10"]), self.r.choice(["-", "2"])),
-              "pages %d %s" % (w2, a2), "children %d %s" % (w2, a2), "paginate %d %s %s - 0" % (w2, a2, self.r.choice(["1", "3", "-"]))]
+              "pages %d %s" % (w2, a2), "children %d %s" % (w2, a2), "paginate %d %s %s - 0" % (w2, a2, self.r.choice(["1", "3", "-"])),
+              "pagelinksof %s 1 1 1" % hx(self.page_lru()), "linksiter %s" % self.r.choice("01")]
         self.r.shuffle(qs)
         return qs[: self.r.randint(3, 6)]
 
@@ -380,8 +413,40 @@ class Session(object):
     def w_addrule(self):
         st = stems_of(self.any_lru())
         a = b"".join(st[: self.r.randint(1, len(st))]); self.note(a)
+        rs = list(getattr(self.impl.t, "webentity_creation_rules", {}).keys())
+        below = [l for l in self.known for q in rs if l.startswith(q) and len(stems_of(l)) > len(stems_of(q))]
+        if below and self.r.random() < 0.4:
+            # an anchor nested below an anchored rule, with a rule that proposes a longer prefix than the one above
+            l = self.r.choice(below)
+            q = max((q for q in rs if l.startswith(q)), key=len)
+            stl = stems_of(l)
+            if len(stems_of(q)) + 1 <= len(stl):
+                a = b"".join(stl[: self.r.randint(len(stems_of(q)) + 1, len(stl))]); self.note(a)
+                self.q("pagesiter")
+                return self.do("addrule %s %s" % (hx(a), self.r.choice(["path2", "path3", "path4"])))
         self.q("pagesiter")          # the traversal order the oracle needs ("in some order")
         return self.do("addrule %s %s" % (hx(a), self.r.choice(RULE_NAMES[1:])))
+
+    def w_nestedrules(self):
+        """two rules on nested anchors of a site nobody has visited yet, the deeper one proposing the longer prefix; then the
+        first pages below both"""
+        r = self.r
+        site = self.new_lru()
+        st = stems_of(site)
+        hosts_end = max([i for i, x in enumerate(st) if x.startswith((b"h:", b"s:", b"t:"))] + [0]) + 1
+        site = b"".join(st[:hosts_end])
+        p1, p2 = r.choice(self.space.paths if self.family == "g1" else self.space.stems), r.choice(self.space.paths if self.family == "g1" else self.space.stems)
+        shallow, deep = site, site + p1
+        lo, hi = r.choice([("path1", "path3"), ("path1", "path2"), ("path2", "path4"), ("domain", "path2"), ("path3", "path1")])
+        self.note(shallow, deep)
+        self.do("addrule %s %s" % (hx(shallow), lo))
+        self.do("addrule %s %s" % (hx(deep), hi))
+        page = deep + p2 + r.choice([b"p:x|", b"p:y|p:z|", b""]) + r.choice([b"", b"p:w|"])
+        self.note(page); self.pages.append(page)
+        self.q("potential " + hx(page))
+        res = self.do("addpage %s %s" % (hx(page), r.choice("01")))
+        self.q("retrieveprefix " + hx(page)); self.q("prefixiter")
+        return res
 
     def w_rmrule(self):
         rs = list(getattr(self.impl.t, "webentity_creation_rules", {}).keys())
@@ -443,7 +508,21 @@ class Session(object):
     def q(self, s):
         return self.do("? " + s)
 
+    def variation_of(self, l):
+        st = stems_of(l)
+        if st and st[0] in (b"s:http|", b"s:https|") and self.r.random() < 0.5:
+            st = [b"s:https|" if st[0] == b"s:http|" else b"s:http|"] + st[1:]
+        else:
+            hs = [i for i, x in enumerate(st) if x.startswith(b"h:")]
+            if hs:
+                k = hs[-1]
+                st = st[:k] + st[k + 1:] if st[k] == b"h:www|" else st[:k + 1] + [b"h:www|"] + st[k + 1:]
+        return b"".join(st)
+
     def r_resolution(self):
+        if self.pages and self.r.random() < 0.5:
+            v = self.variation_of(self.r.choice(self.pages))       # the scheme / www twin of an indexed page
+            self.q("retrievewe " + hx(v)); self.q("retrieveprefix " + hx(v))
         l = self.any_lru()
         self.q("retrievewe " + hx(l)); self.q("retrieveprefix " + hx(l))
         self.q("webyprefix " + hx(self.any_lru())); self.q("potential " + hx(self.any_lru()))
@@ -553,7 +632,7 @@ class Session(object):
         self.do("hash")
 
     WRITES = ["addpage", "addpages", "addlinks", "batch", "create", "delete", "addprefix", "rmprefix", "moveprefix",
-              "addrule", "rmrule", "reopen", "clear", "cobatch", "deleteu", "addruleram"]
+              "addrule", "rmrule", "reopen", "clear", "cobatch", "deleteu", "addruleram", "chain", "nestedrules"]
     READS = ["resolution", "pages", "paginate", "paginatelinks", "mostlinked", "hierarchy", "welinks", "pagelinks",
              "network", "global", "linksiter", "locate", "metrics", "helpers", "hierarchy_all"]
 
@@ -574,4 +653,4 @@ class Session(object):
 
 DEFAULT_W = {"addpage": 6, "addpages": 2, "addlinks": 4, "batch": 3, "create": 3, "delete": 1.2, "addprefix": 1.5,
              "rmprefix": 1, "moveprefix": 0.8, "addrule": 1.5, "rmrule": 0.5, "reopen": 0.8, "clear": 0.25, "cobatch": 0.5,
-             "deleteu": 0.5, "addruleram": 0.4}
+             "deleteu": 0.5, "addruleram": 0.4, "chain": 0.06, "nestedrules": 0.15}
